@@ -165,19 +165,20 @@ func build(c *c08Case) (*built, error) {
 		}
 		b.args = append(b.args, v)
 	}
-	for _, h := range c.Hdrs {
-		v, err := mk(h.V)
-		if err != nil {
-			return nil, fmt.Errorf("hdr: %v", err)
-		}
-		b.hdrs = append(b.hdrs, v)
-	}
+	// the same order as the generator's: a value may refer to a pointer defined by an earlier one
 	for _, r := range c.Res.Values {
 		v, err := mk(r)
 		if err != nil {
 			return nil, fmt.Errorf("res: %v", err)
 		}
 		b.res = append(b.res, v)
+	}
+	for _, h := range c.Hdrs {
+		v, err := mk(h.V)
+		if err != nil {
+			return nil, fmt.Errorf("hdr: %v", err)
+		}
+		b.hdrs = append(b.hdrs, v)
 	}
 	tix := func(i int) (reflect.Type, error) {
 		if i < 0 {
@@ -645,27 +646,48 @@ func runCase(line []byte, out *json.Encoder) error {
 		args[i] = ifaceOf(a)
 	}
 	var entered []interface{} // what the function is entitled to see
-	for i, a := range args {
-		var t reflect.Type
-		name := "interface {}"
+	wantT := make([]reflect.Type, len(args))
+	wantN := make([]string, len(args))
+	for i := range args {
+		wantN[i] = "interface {}"
 		if i < len(c.Want) && c.Want[i] >= 0 {
-			t = b.types[c.Want[i]]
-			name = t.String()
+			wantT[i] = b.types[c.Want[i]]
+			wantN[i] = wantT[i].String()
 		}
-		o, e := ioRoundTrip(a, t, c.Copts.Simple, c.Sopts)
-		if e != "" {
-			obs.OrArgs = append(obs.OrArgs, tv{Ty: name, Err: e})
-		} else {
-			obs.OrArgs = append(obs.OrArgs, tv{Ty: name, V: unfoldTop(o), Eq: equalTo(b.args[i], o)})
-		}
-		entered = append(entered, o)
 	}
-	for i, h := range c.Hdrs {
-		o, e := ioRoundTrip(ifaceOf(b.hdrs[i]), nil, c.Copts.Simple, c.Sopts)
-		if e != "" {
-			obs.OrHdrs = append(obs.OrHdrs, kv{h.K, "ERR " + e})
+	var joint []interface{}
+	var jerrs []string
+	if len(args) > 0 {
+		joint, jerrs = ioTupleRoundTrip(args, wantT, c.Copts.Simple, c.Sopts)
+	}
+	for i, a := range args {
+		e := tv{Ty: wantN[i]}
+		so, se := ioRoundTrip(a, wantT[i], c.Copts.Simple, c.Sopts)
+		if se != "" {
+			e.SoloErr = se
 		} else {
-			obs.OrHdrs = append(obs.OrHdrs, kv{h.K, unfoldI(o)})
+			e.Solo, e.SoloEq = unfoldI(so), equalTo(b.args[i], so)
+		}
+		if jerrs[i] != "" {
+			e.Err = jerrs[i]
+		} else {
+			e.V, e.Eq = unfoldTop(joint[i]), equalTo(b.args[i], joint[i])
+		}
+		obs.OrArgs = append(obs.OrArgs, e)
+		entered = append(entered, joint[i])
+	}
+	if len(c.Hdrs) > 0 {
+		hm := map[string]interface{}{}
+		for i, h := range c.Hdrs {
+			hm[unhexs(h.K)] = ifaceOf(b.hdrs[i])
+		}
+		om, e := ioHeadersRoundTrip(hm, c.Copts.Simple, c.Sopts)
+		for _, h := range c.Hdrs {
+			if e != "" {
+				obs.OrHdrs = append(obs.OrHdrs, kv{h.K, "ERR " + e})
+			} else {
+				obs.OrHdrs = append(obs.OrHdrs, kv{h.K, unfoldI(om[unhexs(h.K)])})
+			}
 		}
 	}
 	var rts []reflect.Type
@@ -715,15 +737,26 @@ func runCase(line []byte, out *json.Encoder) error {
 				obs.OrRes = append(obs.OrRes, tv{Ty: rts[0].String(), V: unfoldTop(o)})
 			}
 		case len(rts) >= 2:
+			var joint []interface{}
+			var jerrs []string
+			if len(produced) >= 2 {
+				joint, jerrs = ioTupleRoundTrip(produced, rts, c.Sopts.Simple, c.Copts)
+			}
 			for i, r := range produced {
 				if i >= len(rts) {
 					break
 				}
-				o, e := ioRoundTrip(r, rts[i], c.Sopts.Simple, c.Copts)
-				if e != "" {
-					obs.OrRes = append(obs.OrRes, tv{Ty: rts[i].String(), Err: e})
+				if joint == nil {
+					o, e := ioRoundTrip(r, rts[i], c.Sopts.Simple, c.Copts)
+					if e != "" {
+						obs.OrRes = append(obs.OrRes, tv{Ty: rts[i].String(), Err: e})
+					} else {
+						obs.OrRes = append(obs.OrRes, tv{Ty: rts[i].String(), V: unfoldTop(o)})
+					}
+				} else if jerrs[i] != "" {
+					obs.OrRes = append(obs.OrRes, tv{Ty: rts[i].String(), Err: jerrs[i]})
 				} else {
-					obs.OrRes = append(obs.OrRes, tv{Ty: rts[i].String(), V: unfoldTop(o)})
+					obs.OrRes = append(obs.OrRes, tv{Ty: rts[i].String(), V: unfoldTop(joint[i])})
 				}
 			}
 		}
@@ -769,7 +802,12 @@ func runCase(line []byte, out *json.Encoder) error {
 	}))
 	clientCtx := core.NewClientContext()
 	for i, h := range c.Hdrs {
-		clientCtx.RequestHeaders().Set(unhexs(h.K), ifaceOf(b.hdrs[i]))
+		if c.Via == "proxy" && !c.Proxy.Ctx {
+			// a proxy function without a context parameter: the headers are the client's global request headers
+			client.RequestHeaders().Set(unhexs(h.K), ifaceOf(b.hdrs[i]))
+		} else {
+			clientCtx.RequestHeaders().Set(unhexs(h.K), ifaceOf(b.hdrs[i]))
+		}
 	}
 	ctx := core.WithContext(context.Background(), clientCtx)
 
@@ -914,4 +952,7 @@ func main() {
 	}
 	_ = hex.EncodeToString
 	hvlib.Main(runCase)
+	if tmpDir != "" {
+		os.RemoveAll(tmpDir)
+	}
 }
